@@ -563,10 +563,24 @@ var matrixOps = []containerOp{
 	{"MdotM", "PROD", false},
 }
 
+// doubleAlias: both factors of a product alias the receiver, in different
+// ways (one of them through a distinct view object over the same storage).
+var doubleAlias = []string{"a=r.T,b=r", "a=r,b=r.T", "a=view(r),b=r", "a=r,b=view(r)"}
+
+func isDoubleAlias(pat string) bool {
+	for _, p := range doubleAlias {
+		if p == pat {
+			return true
+		}
+	}
+	return false
+}
+
 func matrixPatterns(kind string) []string {
+	base := []string{"r=a", "r=b", "r=a=b", "a=r.T", "b=r.T", "overlap-a:lag", "overlap-a:lead", "overlap-b:lag", "overlap-b:lead"}
 	switch kind {
 	case "MM", "PROD":
-		return []string{"r=a", "r=b", "r=a=b", "a=r.T", "b=r.T", "overlap-a:lag", "overlap-a:lead", "overlap-b:lag", "overlap-b:lead"}
+		return base
 	case "MS":
 		return []string{"r=a", "a=r.T", "overlap-a:lag", "overlap-a:lead", "s=r[i,j]"}
 	}
@@ -633,7 +647,7 @@ func (mc matrixCase) witness() map[string]any {
 func genMatrixCase(r *prng.Rand, T gen.ElemType, storage string, op containerOp, concrete bool, pat string) matrixCase {
 	mc := matrixCase{T: T, Storage: storage, OtherStorage: storage, Op: op, Concrete: concrete, Pat: pat}
 	n, m := r.Range(2, 4), r.Range(2, 4)
-	needSquare := strings.Contains(pat, "r.T") || pat == "r=a=b" && op.kind == "PROD"
+	needSquare := strings.Contains(pat, "r.T") || isDoubleAlias(pat) || pat == "r=a=b" && op.kind == "PROD"
 	if needSquare || r.Chance(0.4) {
 		m = n
 	}
@@ -656,7 +670,7 @@ func genMatrixCase(r *prng.Rand, T gen.ElemType, storage string, op containerOp,
 			k = m
 		case pat == "r=b" || strings.HasPrefix(pat, "overlap-b"):
 			k = n
-		case pat == "r=a=b" || strings.Contains(pat, "r.T"):
+		case pat == "r=a=b" || strings.Contains(pat, "r.T") || isDoubleAlias(pat):
 			k = n
 		}
 		mc.AR, mc.AC, mc.BR, mc.BC = n, k, k, m
@@ -688,6 +702,15 @@ func genMatrixCase(r *prng.Rand, T gen.ElemType, storage string, op containerOp,
 		}
 	}
 	switch {
+	case pat == "a=r.T,b=r":
+		mc.A, mc.AS = transposeJets(mc.R, mc.RS, n, m)
+		mc.B, mc.BS = mc.R, mc.RS
+	case pat == "a=r,b=r.T":
+		mc.A, mc.AS = mc.R, mc.RS
+		mc.B, mc.BS = transposeJets(mc.R, mc.RS, n, m)
+	case pat == "a=view(r),b=r", pat == "a=r,b=view(r)":
+		mc.A, mc.AS = mc.R, mc.RS
+		mc.B, mc.BS = mc.R, mc.RS
 	case pat == "a=r.T":
 		mc.A, mc.AS = transposeJets(mc.R, mc.RS, n, m)
 	case pat == "b=r.T":
@@ -727,7 +750,7 @@ func genMatrixCase(r *prng.Rand, T gen.ElemType, storage string, op containerOp,
 		}
 	}
 	switch {
-	case pat == "r=a=b":
+	case pat == "r=a=b" || isDoubleAlias(pat):
 		mc.recvOrd, mc.other = maxOrder(mc.A), 0
 	case pat == "r=a":
 		mc.recvOrd, mc.other = maxOrder(mc.A), maxInt(maxOrder(mc.B), mc.S.J.Order())
@@ -786,6 +809,18 @@ func (mc matrixCase) eval(mode string) (res snap.Mat, p *fw.Panic, setup bool) {
 		case pat == "r=b":
 			r = mk(mc.B, mc.BS, mc.BR, mc.BC, mc.Storage)
 			a, b = mk(mc.A, mc.AS, mc.AR, mc.AC, mc.Storage), r
+		case pat == "a=r.T,b=r":
+			r = mk(mc.R, mc.RS, mc.Rows, mc.Cols, mc.Storage)
+			a, b = r.T(), r
+		case pat == "a=r,b=r.T":
+			r = mk(mc.R, mc.RS, mc.Rows, mc.Cols, mc.Storage)
+			a, b = r, r.T()
+		case pat == "a=view(r),b=r":
+			r = mk(mc.R, mc.RS, mc.Rows, mc.Cols, mc.Storage)
+			a, b = r.Slice(0, mc.Rows, 0, mc.Cols), r
+		case pat == "a=r,b=view(r)":
+			r = mk(mc.R, mc.RS, mc.Rows, mc.Cols, mc.Storage)
+			a, b = r, r.Slice(0, mc.Rows, 0, mc.Cols)
 		case pat == "a=r.T":
 			r = mk(mc.R, mc.RS, mc.Rows, mc.Cols, mc.Storage)
 			a, b = r.T(), mk(mc.B, mc.BS, mc.BR, mc.BC, mc.Storage)
@@ -888,7 +923,41 @@ func matrixCombos() []containerCombo {
 	return res
 }
 
+// doubleCombos: MdotM / MDOTM with both factors aliasing the receiver.  Kept in
+// a list and in monitors of their own so that the case addresses of the older
+// monitors do not move.
+func doubleCombos() []containerCombo {
+	var res []containerCombo
+	for _, k := range matrixCombos() {
+		if k.op.kind == "PROD" && k.pat == "r=a=b" {
+			for _, pat := range doubleAlias {
+				res = append(res, containerCombo{k.T, k.storage, k.op, k.concrete, pat})
+			}
+		}
+	}
+	return res
+}
+
 func runMatrices(c *fw.Ctx) {
+	dc := doubleCombos()
+	c.CoverMax("max:matrix-double-alias-combos", int64(len(dc)))
+	defer func() {
+		c.Cases("matrix.double.directed", len(dc), func(cs *fw.Case) {
+			k := dc[cs.Index]
+			for rep := 0; rep < 8; rep++ {
+				mc := genMatrixCase(cs.R, k.T, k.storage, k.op, k.concrete, k.pat)
+				mc.judge(cs)
+				if rep == 0 {
+					cs.Sample(mc.witness())
+				}
+			}
+		})
+		c.Cases("matrix.double.random", c.N(20000, 400000), func(cs *fw.Case) {
+			k := dc[cs.R.Intn(len(dc))]
+			mc := genMatrixCase(cs.R, k.T, k.storage, k.op, k.concrete, k.pat)
+			mc.judge(cs)
+		})
+	}()
 	combos := matrixCombos()
 	c.CoverMax("max:matrix-combos", int64(len(combos)))
 	c.Cases("matrix.directed", len(combos), func(cs *fw.Case) {
